@@ -1015,6 +1015,30 @@ int __wrap_pthread_cond_broadcast(pthread_cond_t *c) {
     if (!sim::active()) return __real_pthread_cond_broadcast(c);
     return sim::cond_signal(c, true);
 }
+// pthread_once: glibc's own implementation parks a second caller on a futex while the first runs the function - a blocking
+// the simulator would not see (the baton holder would sleep in the kernel). Simulated with one internal mutex/condition pair;
+// the flag values are glibc's (0 never run, 1 in progress, 2 done), so a flag completed inside a run stays completed outside.
+int __real_pthread_once(pthread_once_t *, void (*)(void));
+static pthread_mutex_t g_once_mu = PTHREAD_MUTEX_INITIALIZER;
+static pthread_cond_t g_once_cv = PTHREAD_COND_INITIALIZER;
+int __wrap_pthread_once(pthread_once_t *flag, void (*fn)(void)) {
+    if (!sim::active()) return __real_pthread_once(flag, fn);
+    volatile int *f = (volatile int *)flag;
+    sim::mutex_lock(&g_once_mu);
+    while (*f == 1) sim::cond_wait(&g_once_cv, &g_once_mu, nullptr);
+    if (*f == 2) {
+        sim::mutex_unlock(&g_once_mu);
+        return 0;
+    }
+    *f = 1;
+    sim::mutex_unlock(&g_once_mu);
+    fn();
+    sim::mutex_lock(&g_once_mu);
+    *f = 2;
+    sim::cond_signal(&g_once_cv, true);
+    sim::mutex_unlock(&g_once_mu);
+    return 0;
+}
 int __wrap_pthread_create(pthread_t *t, const pthread_attr_t *a, void *(*fn)(void *), void *arg) {
     if (!sim::active()) return __real_pthread_create(t, a, fn, arg);
     return sim::thread_create(t, fn, arg);
